@@ -8,6 +8,8 @@ PROP = dict(
         # pure Rust API: every operation is a transcript record the model recomputes (panic outcomes included);
         # oracle_c01.rs reports every panic / hang of an operation or of a read-only accessor
         dict(bin="editor"),
+        # scripted family: candidate choices over break / glue marks (script_c01.rs), same step machinery and oracle
+        dict(bin="editor", args=["--script", "c01"], tag="editor-c01-breaks"),
         # C API in forked workers with a per-call watchdog: oracle only (`!oracle C01 <class> <history>`), no records
         dict(bin="capi_crash", timeout=1500, timeout_thorough=3000),
     ],
@@ -33,9 +35,20 @@ PROP = dict(
          "c01_noword_state_entered_by.*; C-API campaign: a directed corpus replayed on every run (stat directed_histories; the former F02 / "
          "F03 / simple-engine-hang witnesses as they were and continued with Down / cand_open / cand_list_first/last/next/prev / "
          "choose / Tab / Enter, the list opened under each engine, j / k onto the syllable from a neighbour, auto-commit with "
-         "threshold 0..2: former_noword_class_witnesses = former_noword_class_witnesses_clean) and calls_from_noword_state, "
+         "threshold 0..2: former_noword_class_witnesses = former_noword_class_witnesses_clean; `choice-over-tab-marks`: 測試 and the user "
+         "phrases 測試測 / 測試測試 with Tab marks at every non-empty set of inner gaps, chewing / fuzzy engine, forward / rearward "
+         "choice, candidate 0 chosen by chewing_cand_choose_by_index and by digit key, then more keys / Tab / list / Enter) and calls_from_noword_state, "
          "histories_reaching_noword_state, noword_incl_directed.* measured by replaying a sample of the generated histories with "
-         "the state predicate evaluated before every call (calls_from_noword_state_estimated_campaign)",
+         "the state predicate evaluated before every call (calls_from_noword_state_estimated_campaign). Scripted family (run "
+         "editor-c01-breaks, `editor --script c01`, same step machinery, accessors, oracle and records as the generated sessions; every "
+         "probe from a freshly built editor replaying its scenario): every dictionary phrase of 2..4 syllables typed alone / with a "
+         "neighbour syllable before and / or after, Tab marks (break or glue, one or two Tabs, one / two / three gaps) at every gap "
+         "inside it, then from EVERY cursor position the list opened with Down under forward and rearward choice and the chewing / "
+         "fuzzy engine (simple engine: switched to after the marks), the range cycled (Down / Space / j / k), EVERY candidate index "
+         "chosen by digit key and by Editor::select(n) (one index past the end included), continued by Enter / Tab at the end / more "
+         "syllables / the list again / commit() / further marks; #stat c01_break_scenarios, c01_break_lists_opened, c01_break_choices "
+         "(+ .covering_break, .covering_glue, .multi_syllable_over_break[.before_last_syllable / .engineN / .forward], .failed), "
+         "c01_break_marks_set.break / .glue, c01_break_tails.N, c01_break_failures",
     trusted_base=[
         "hook H1 (Editor::verif_snapshot, TrieBuf::verif_snapshot) is read-only; the layout and conversion answers of each step "
         "are recorded through wrapper objects installed through the public constructors",
